@@ -295,6 +295,12 @@ def check(pid, tier='quick', seed=0, shared=None, write_evidence=True, quiet=Fal
             if fn.get('dropped_hints') and fl:
                 inconclusive.append(f'{wname}: {fq} lost the anchor of proof hint(s) {fn["dropped_hints"]} and no longer verifies: undecided')
                 continue
+            if fn.get('guards_left') and fl:
+                # Verus does not resolve `&mut` borrows across a failed match guard (DESIGN 11.2 R10); R10 desugars the common
+                # shape, other shapes are left alone and a failed proof in such a function is not trusted as a verdict
+                inconclusive.append(f'{wname}: {fq} contains {fn["guards_left"]} match guard(s) that R10 does not desugar and no longer verifies: '
+                                    f'undecided (known Verus limitation with borrows across guards)')
+                continue
             if any('post-condition of closure' in f['message'] or 'postcondition of closure' in f['message'] for f in fl):
                 # the contract attached (by ordinal) to a closure no longer describes that closure: the annotation, not
                 # necessarily the behaviour, is off; everything proved in this function assumed it -> undecided
